@@ -202,6 +202,25 @@ theorem C14_saved_delete_is_gone (sch : Schema) (w : World) (o : ObjId) (ids : L
     getRow (flushObj sch w o ids).w.txn pk' = if pk' = k then none else getRow w.txn pk' :=
   flushObj_deleted_rows hst hpk pk'
 
+/-- NO INSERT IS LOST, for the whole queue and ANY ids the database generates: when `commit()` returns without an error,
+    every object that was `created` and queued is a row of the COMMITTED table, under the primary key the object now holds
+    (explicit or generated), with exactly the values the session had — later statements of the same flush (other INSERTs,
+    UPDATEs, DELETEs) cannot have touched it, because the session never holds two objects for one primary key (`Inv_idx`, C11) -/
+theorem C14_commit_loses_no_insert (sch : Schema) (w : World) (ids : List Int) (hI : Inv sch w.sess)
+    (hnd : w.sess.queue.Nodup) (hq : ∀ o, o ∈ w.sess.queue → o < w.sess.n) (hm : w.modified = true) (hp : w.pendingSaved = false)
+    (hc : (stepW sch w (.commit ids)).2 = none) (o : ObjId) (ho : o ∈ w.sess.queue) (hst : (w.sess.obj o).status = .created) :
+    ∃ k, ((stepW sch w (.commit ids)).1.sess.obj o).pk = some k ∧
+      getRow (stepW sch w (.commit ids)).1.committed k = some (objRow (w.sess.obj o) k) := by
+  simp only [stepW, commit, flush, hp, hm, Bool.false_eq_true, if_false, Bool.not_true] at hc ⊢
+  cases hg : flushGo sch w.sess.queue w ids false with
+  | mk w' r =>
+    obtain ⟨e, sv⟩ := r
+    cases e with
+    | some e => simp [hg] at hc
+    | none =>
+      simp only [hg]
+      exact flushGo_inserts w.sess.queue hnd w ids false hI hq w' sv hg o ho hst
+
 /-! ### the statements are not vacuous -/
 
 /-- `E(id, u unique, a, b; composite_key(a, b))` -/
@@ -252,6 +271,12 @@ example : ((stepW exSchema (runW exSchema World.init
     (runW exSchema World.init
       [.ext (row 1 (some 10) none none), .ext (row 2 (some 20) none none),
        .fetch 0 [1] [], .sess (.delete 0), .flushOne 0 []]).inTxn = true := by
+  decide
+
+/-- the hypotheses of `C14_commit_loses_no_insert` are met by a session with two new objects, one with a generated id -/
+example : (runW exSchema World.init [.sess (.create 0 none [some 1, none, none] false), .sess (.create 0 (some [7]) [some 2, none, none] false)]).sess.queue = [0, 1] ∧
+    (stepW exSchema (runW exSchema World.init [.sess (.create 0 none [some 1, none, none] false), .sess (.create 0 (some [7]) [some 2, none, none] false)]) (.commit [3])).2 = none ∧
+    ((stepW exSchema (runW exSchema World.init [.sess (.create 0 none [some 1, none, none] false), .sess (.create 0 (some [7]) [some 2, none, none] false)]) (.commit [3])).1.committed.map fun r => (r.pk, r.vals 0)) = [([3], some 1), ([7], some 2)] := by
   decide
 
 /-- the auto-id branch: the database generates id 1 while an object with explicit id 1 is pending ⇒ error, rollback -/
